@@ -20,7 +20,7 @@ From Coq Require Import List String ZArith NArith Bool.
 Import ListNotations.
 From Anthem Require Import Base.ISet Base.Fresh Syntax.Fol Syntax.Asp Sem.Domain Sem.Sat Model.Subst Model.Problem Model.Outline
   Model.Strong Model.External Model.ExternalFull Model.TauStar Model.Completion
-  Proofs.SemBase Proofs.DecomposeOk Proofs.StrongOk Proofs.ExternalOk Proofs.OutlineOk Proofs.OutlineSound Proofs.TasksClosed
+  Proofs.SemBase Proofs.DecomposeOk Proofs.StrongOk Proofs.ExternalOk Proofs.OutlineOk Proofs.OutlinePayload Proofs.OutlineSound Proofs.TasksClosed
   Proofs.C19Ext Proofs.C13Full.
 From Anthem Require Model.AspParse Model.FolParse.
 Open Scope string_scope.
@@ -56,7 +56,7 @@ Theorem C13_definition_shape :
     definition f taken = Ok (p, w) ->
     exists vs q ts rhs tv,
       f = FQ QForall vs (FBin CIff (FAtomic (AAtom q ts)) rhs) /\ p = mkpred q (List.length ts) /\
-      NoDup vs /\ terms_as_vars ts [] = Some tv /\ (forall v, In v vs <-> In v tv) /\
+      NoDup vs /\ terms_as_vars ts [] = inl tv /\ (forall v, In v vs <-> In v tv) /\
       ~ In p taken /\ (forall v, In v (free_variables rhs) -> In v vs) /\
       (forall r, In r (predicates rhs) -> In r taken).
 Proof. exact definition_shape. Qed.
@@ -109,7 +109,7 @@ Example C13_no_weakening :
   let X := mkvar "X" SGeneral in
   let weird := mkannot RDefinition DUniversal "d"
                  (FQ QForall [X] (FBin CIff (FAtomic (AAtom "p" [GVar "X"])) (FAtomic (AAtom "zzz" [GVar "X"])))) in
-  definition (an_formula weird) [] = Err UndefinedRhsPredicate /\ ~ outline_chain [] [] [weird].
+  definition (an_formula weird) [] = Err (UndefinedRhsPredicate (an_formula weird) (mkpred "zzz" 1)) /\ ~ outline_chain [] [] [weird].
 Proof.
   cbv zeta. split; [vm_compute; reflexivity|]. intros H.
   inversion H; subst.
@@ -297,6 +297,53 @@ Theorem C13_fresh :
 Proof. exact accepted_strictly_fresh. Qed.
 Print Assumptions C13_fresh.
 
+(* THE VALUES CARRIED BY THE ERRORS (audit B16; they are part of the compared output, docs/C13.md
+   "payloads").  A refused definition: the error names the defect and carries the formula itself /
+   the defined predicate / an offending predicate or term.  [definition_error_names f taken e]:
+     MalformedDefinition g                   g = f, f is not  forall Xs (p(ts) <-> F)
+     DuplicatedVariables g                   g = f = forall Xs .. with Xs not duplicate-free
+     TermsInDefinition t g                   g = f = forall Xs (p(ts) <-> F), t is an argument of p that is not a variable
+     DefinedPredicateVariableListMismatch g  g = f (a definition by shape)
+     TakenPredicate p                        p is the predicate f defines, and p is taken
+     FreeRhsVariables g                      g = f = forall Xs (L <-> F), some free variable of F is not in Xs
+     UndefinedRhsPredicate g r               g = f = forall Xs (L <-> F), r occurs in F and is not taken
+     (no other variant is returned by [definition]) *)
+Theorem C13_definition_error_names :
+  forall (f : formula) (taken : list pred) (e : po_error),
+    definition f taken = Err e -> definition_error_names f taken e.
+Proof. exact definition_error_sound. Qed.
+Print Assumptions C13_definition_error_names.
+
+(* an error of from_specification is the error of ONE entry a0 of the outline (placeholders of m
+   replaced), raised against the initial set of taken predicates plus the predicates of the earlier
+   entries.  [entry_error m taken' a0 e]: a0 is
+     an assumption / spec entry   and e = AnnotatedFormulaWithInvalidRole (rp_annot m a0);
+     a definition                 and definition (entry_formula m a0) taken' = Err e
+                                  (payload: C13_definition_error_names);
+     a lemma / inductive lemma    and general_lemma_try_from (closed_entry m a0) = Err e *)
+Theorem C13_outline_error_entry :
+  forall (m : placeholders) (l : specification) (taken : list pred) (o0 : proof_outline) ws (e : po_error),
+    from_specification_loop l taken m o0 ws = Err e ->
+    exists pre a0 post taken',
+      l = (pre ++ a0 :: post)%list /\
+      (forall q, In q taken' <-> In q taken \/ exists b, In b pre /\ In q (entry_preds m b)) /\
+      entry_error m taken' a0 e.
+Proof. exact from_specification_error. Qed.
+Print Assumptions C13_outline_error_entry.
+
+(* TakenPredicate p: p is the predicate DEFINED by a definition entry of the outline and it is taken
+   at that point - it belongs to the initial set (the predicates of the task) or occurs in an
+   earlier entry *)
+Theorem C13_taken_predicate_names :
+  forall (m : placeholders) (l : specification) (taken : list pred) (o0 : proof_outline) ws (p : pred),
+    from_specification_loop l taken m o0 ws = Err (TakenPredicate p) ->
+    exists pre a0 post,
+      l = (pre ++ a0 :: post)%list /\ an_role (rp_annot m a0) = RDefinition /\
+      defined_pred (entry_formula m a0) = Some p /\
+      (In p taken \/ exists b, In b pre /\ In p (entry_preds m b)).
+Proof. exact from_specification_taken_error. Qed.
+Print Assumptions C13_taken_predicate_names.
+
 (* regression case of the repaired finding F12:
      lemma: forall X (aux(X) -> in(X)).  definition: forall X (aux(X) <-> in(X)).
    is in the former class (not F12_free), is not strictly fresh, and is now REFUSED with
@@ -307,7 +354,7 @@ Example F12_witness :
                  (FQ QForall [X] (FBin CImp (FAtomic (AAtom "aux" [GVar "X"])) (FAtomic (AAtom "in" [GVar "X"])))) in
   let def := mkannot RDefinition DUniversal "d"
                (FQ QForall [X] (FBin CIff (FAtomic (AAtom "aux" [GVar "X"])) (FAtomic (AAtom "in" [GVar "X"])))) in
-  from_specification [lemma; def] [mkpred "in" 1] [] = Err TakenPredicate /\
+  from_specification [lemma; def] [mkpred "in" 1] [] = Err (TakenPredicate (mkpred "aux" 1)) /\
   ~ F12_free [] [lemma; def] [] /\ ~ strictly_fresh [] [lemma; def] [mkpred "in" 1] /\
   (exists o ws, from_specification [def; lemma] [mkpred "in" 1] [] = Ok (o, ws)) /\
   strictly_fresh [] [def; lemma] [mkpred "in" 1].
